@@ -600,4 +600,23 @@ def Db.initial : Db :=
       | .error _ => [],
     defaultFlag := Gen.defaultCapabilityFlag }
 
+/-! ## channels.conf written and read back
+
+`IrcChannel.preserve` writes `defaultAllow` and one `capability` line per element of the set;
+`IrcChannelCreator` starts from `IrcChannel()` — whose constructor puts in the anti-capability of
+every `defaultOff` capability — and `add`s every `capability` line to it.  So a channel comes
+back with its explicit settings, and with `-op`, `-halfop`, `-voice`, `-protected` wherever the
+file says nothing about them (also when somebody had removed one of those on purpose). -/
+
+/-- one channel record after `flush` + `reload` -/
+def Channel.reloaded (c : Channel) : Channel :=
+  { c with caps := c.caps.foldl (fun s x =>
+      match CapSet.add s x with
+      | .ok s' => s'
+      | .error _ => s) Channel.default.caps }
+
+/-- `ChannelsDictionary.flush()` then `.reload()` -/
+def Db.reloadChannels (db : Db) : Db :=
+  { db with channels := db.channels.map (fun p => (p.1, p.2.reloaded)) }
+
 end C03
